@@ -27,10 +27,12 @@ Valid ==
   \/ E.op = "keys" /\ E.u \in Tups
   \/ E.u \in Tups /\ E.op \in OpsOf(TyOf(E.u))
 
-ExpSt  == After(st, E.op, E.u, E.a, E.b)
-ExpR   == ReplyOf(st, E.op, E.u, E.a, E.b)
+\* a whole-table delete that was refused (reply -998) must change nothing
+Refused == E.op = "deltable" /\ E.r = -998
+ExpSt  == IF Refused THEN st ELSE After(st, E.op, E.u, E.a, E.b)
+ExpR   == IF Refused THEN -998 ELSE ReplyOf(st, E.op, E.u, E.a, E.b)
 ExpRl  == IF E.op = "keys" THEN KeysOf(st, TyOf(E.u), TabOf(E.u)) ELSE <<>>
-Diff   == {x \in Tups : Dump(ExpSt, x) # E.d[x]}
+Diff   == IF Len(E.d) = NTup THEN {x \in Tups : Dump(ExpSt, x) # E.d[x]} ELSE {}
 
 Mismatch == /\ bad' = TRUE
             /\ PrintT(<<"MISMATCH", l, IF Valid THEN <<ExpR, ExpRl, {<<x, Dump(ExpSt, x)>> : x \in Diff}>>
@@ -45,7 +47,7 @@ TNext ==
      ELSE IF /\ E.ev = "cmd" /\ Valid
              /\ Len(E.d) = NTup
              /\ E.r = ExpR /\ E.rl = ExpRl /\ Diff = {}
-          THEN Do(E.op, E.u, E.a, E.b) /\ UNCHANGED bad
+          THEN (IF Refused THEN UNCHANGED <<st, ttl>> ELSE Do(E.op, E.u, E.a, E.b)) /\ UNCHANGED bad
           ELSE Mismatch
 
 TSpec == TInit /\ [][TNext]_tvars
